@@ -28,15 +28,16 @@ TOL_PRES = 1e-8
 RULE = (
     "One run = one seeded history of 5..14 operations: perturb_rng (reseed / draw), construct "
     "(ISV/JFA construction re-seeds the global RNG), unrelated_fit (k-means with another seed, "
-    "i-vector trainer which consumes the global RNG), and 3..7 fits of ONE target spec "
+    "i-vector trainer which consumes the global RNG, ISV), and 3..7 fits of ONE target spec "
     "(estimator in {k-means, GMM, k-means-initialised GMM, ISV, JFA, ISV/JFA from arrays, WCCN}, "
-    "configuration with an integer random_state, data set) under varying presentation "
-    "(identity / sample permutation / class relabelling / both), backend (NumPy, Dask array or "
-    "bag with a fixed chunking) and executor model / task order. Oracle over the history: same "
-    "presentation and backend -> equal to 1e-12 whatever preceded and whatever the schedule; "
-    "different presentations (same backend and chunk structure) -> equal to 1e-8. "
-    "Non-trivial = the history has >= 2 fits of the target with a perturbation or another fit in "
-    "between; distinct = distinct case digest + event-log digest."
+    "configuration with an integer random_state given as a Python int or a NumPy integer scalar, "
+    "data set, label dtype) under varying presentation (identity / sample permutation / class "
+    "relabelling / both), backend (NumPy, Dask array or bag with a fixed chunking) and executor "
+    "model / task order. Oracle over the history: same presentation and backend -> equal to "
+    "1e-12 whatever preceded and whatever the schedule; different presentations (same backend "
+    "and chunk structure) -> equal to 1e-8. Non-trivial = the history has >= 2 fits of the target "
+    "with a perturbation or another fit in between; distinct = distinct case digest + event-log "
+    "digest."
 )
 ASSUMPTIONS = [
     "presentation invariance of k-means / GMM is evaluated with explicit initial centroids / "
